@@ -78,7 +78,9 @@ def run(prog, tier, extra=None):
     if not cmp["sites"]:
         res.add(Finding(R1, "C06.merkle|no-comparison", "Block::validate never compares self.merkle_root with generate_merkle_root(self, ..)", b.loc(0)))
     else:
-        path, states = bv.must_pass(cmp["eq"], fixed_fields={"validate_against_utxo": True})
+        # not conditional on validate_against_utxo: a node that joined mid-chain validates with it off and must
+        # still bind the transaction list to the signed header
+        path, states = bv.must_pass(cmp["eq"])
         if path:
             res.add(Finding(R1, "C06.merkle|bypass",
                             "Block::validate returns true on a path that never establishes merkle_root == generate_merkle_root(transactions)",
@@ -191,5 +193,5 @@ def run(prog, tier, extra=None):
         "merkle_root/creator/id/timestamp/previous_block_hash, pre_hash = hash(serialize_for_signature), hash = hash(previous_block_hash ++ pre_hash); "
         "verify_block forwards only on the equal edges of the id/hash comparisons. It does not decide collision resistance of the merkle construction.")
     res.assumptions = ["exempt exits are the SPV-mode return and the ghost-block returns of Block::validate, identified by the provenance of their branch condition",
-                       "validate_against_utxo is fixed to true (the consensus path)"]
+                       "both values of validate_against_utxo are explored"]
     return res
